@@ -42,6 +42,7 @@ static int64_t now_us() { struct timespec ts; clock_gettime(CLOCK_MONOTONIC, &ts
 struct MockServer {
   int udp = -1, lis = -1, wake[2] = {-1, -1}; unsigned short port = 0; std::thread th; std::atomic<bool> stop{false};
   std::atomic<long> answers_left{-1}; std::atomic<long> received{0}, answered{0};
+  std::string logpath; std::vector<std::pair<std::string, int64_t>> rxlog;   // (first label, arrival time): written by the child when it stops, read by the parent afterwards
   struct Pending { int64_t due; int fd; bool tcp; struct sockaddr_in to; std::string data; };
 
   bool start() {
@@ -61,7 +62,7 @@ struct MockServer {
     fflush(nullptr);
     child = fork();
     if (child < 0) return false;
-    if (child == 0) { close(wake[1]); run(); _exit(0); }
+    if (child == 0) { close(wake[1]); run(); if (!logpath.empty()) { FILE *f = fopen(logpath.c_str(), "w"); if (f) { for (auto &e : rxlog) { std::string nm; for (char ch : e.first) nm += (isalnum((unsigned char)ch) ? ch : '_'); fprintf(f, "%s %lld\n", nm.c_str(), (long long)e.second); } fclose(f); } } _exit(0); }
     close(udp); close(lis); close(wake[0]); udp = lis = -1; wake[0] = -1;
     return true;
   }
@@ -75,6 +76,7 @@ struct MockServer {
     size_t p = 12; std::string first; bool got_first = false;
     while (p < n && q[p] != 0) { size_t l = q[p]; if (l > 63 || p + 1 + l > n) return ""; if (!got_first) { first.assign((const char *)q + p + 1, l); got_first = true; } p += 1 + l; }
     if (p + 5 > n) return ""; size_t qend = p + 5; unsigned qtype = (q[p + 1] << 8) | q[p + 2];
+    if (rxlog.size() < 4096) rxlog.push_back({first, now_us()});
     char c0 = first.empty() ? 'a' : (char)tolower((unsigned char)first[0]);
     if (c0 == 's') return "";
     long left = answers_left.load(); if (left == 0) return ""; if (left > 0) answers_left--;
@@ -111,11 +113,11 @@ struct MockServer {
 
 // ------------------------------------------------------------------ program
 struct Op { int tid; std::string op, arg, cb; };
-struct Program { std::string prop = "C11", backend = "epoll", flags; int tries = 2, timeout = 100; long answers = -1; bool dead = false; uint32_t seed = 1; std::vector<Op> ops; int nthreads = 0; };
+struct Program { std::string prop = "C11", backend = "epoll", flags; int tries = 2, timeout = 100; long answers = -1; bool dead = false; bool tight = false; uint32_t seed = 1; std::vector<Op> ops; int nthreads = 0; };
 static bool parse_program(const std::string &text, Program &p) {
   std::istringstream in(text); std::string l;
   while (std::getline(in, l)) { if (l.empty() || l[0] == '#') continue; std::istringstream ls(l); std::string k; ls >> k;
-    if (k == "prop") ls >> p.prop; else if (k == "seed") ls >> p.seed; else if (k == "backend") ls >> p.backend; else if (k == "answers") ls >> p.answers; else if (k == "dead") { int d = 0; ls >> d; p.dead = d != 0; }
+    if (k == "prop") ls >> p.prop; else if (k == "seed") ls >> p.seed; else if (k == "backend") ls >> p.backend; else if (k == "answers") ls >> p.answers; else if (k == "dead") { int d = 0; ls >> d; p.dead = d != 0; } else if (k == "tight") { int d = 0; ls >> d; p.tight = d != 0; }
     else if (k == "opt") { std::string w; while (ls >> w) { if (w.rfind("flags=", 0) == 0) p.flags = w.substr(6); else if (w.rfind("tries=", 0) == 0) p.tries = std::max(1, atoi(w.c_str() + 6)); else if (w.rfind("timeout=", 0) == 0) p.timeout = std::max(1, atoi(w.c_str() + 8)); } }
     else if (k == "t") { Op o; ls >> o.tid >> o.op; std::string w; while (ls >> w) { if (w.rfind("cb=", 0) == 0) o.cb = w.substr(3); else o.arg = w; } if (o.tid >= 0 && o.tid < 8 && !o.op.empty()) { p.ops.push_back(o); p.nthreads = std::max(p.nthreads, o.tid + 1); } } }
   return p.nthreads > 0;
@@ -128,6 +130,7 @@ struct Run {
   ares_channel_t *ch = nullptr; ReqSlot *req = nullptr; std::atomic<int> nreq{0}; std::atomic<uint64_t> seq{1}; std::atomic<bool> destroyed{false};
   std::atomic<int> pending{0}; std::atomic<int> overlap_issues{0}; std::atomic<int> reconfigs{0}; std::atomic<int> wait_ok{0}, wait_timeout{0}; std::atomic<int> wait_violation{0}; std::atomic<int> cb_reinit{0}, cb_query{0}, cb_cancel{0};
   std::string csv; std::atomic<int> last_issuer{-1}; int slow_us = 0; std::atomic<int> cb_slow{0};
+  std::atomic<int64_t> t_empty{0}, t_last_issue{0}; std::atomic<int> slept_through{0}; std::atomic<int> long_waits{0};
 };
 struct CbArg { Run *run; int idx; };
 static CbArg g_cbargs[MAXREQ];
@@ -139,10 +142,13 @@ static void yield_hook(void) {
   tl_rng ^= tl_rng << 13; tl_rng ^= tl_rng >> 7; tl_rng ^= tl_rng << 17;
   unsigned r = (unsigned)(tl_rng & 0xff); if (r < 40) sched_yield(); else if (r < 48) usleep((unsigned)(tl_rng >> 8) % 80);
 }
+// hook H2: the library's randomness (query ids, retry jitter, rotation) from a seeded, thread-safe stream, so that the retry deadlines of a program are the same on every attempt
+static std::atomic<uint64_t> g_rand_ctr{0};
+static void rand_hook(unsigned char *buf, size_t len) { for (size_t i = 0; i < len; i++) { uint64_t x = g_rand_ctr.fetch_add(0x9E3779B97F4A7C15ULL) + 0x9E3779B97F4A7C15ULL; x ^= x >> 30; x *= 0xBF58476D1CE4E5B9ULL; x ^= x >> 27; x *= 0x94D049BB133111EBULL; x ^= x >> 31; buf[i] = (unsigned char)(x >> 24); } }
 static int issue(Run &R, const std::string &kind, const std::string &name, int cbkind);
 static void on_done(Run *R, int idx, int status) {
   ReqSlot &s = R->req[idx]; if (R->destroyed.load()) s.late++;
-  int before = s.calls.fetch_add(1); if (before == 0) { s.status = status; s.t_done = now_us(); R->pending--; }
+  int before = s.calls.fetch_add(1); if (before == 0) { s.status = status; s.t_done = now_us(); if (R->pending.fetch_sub(1) == 1) R->t_empty = now_us(); }
   if (before != 0 || R->destroyed.load()) return;
   int k = s.cbkind.load(); if (status == ARES_EDESTRUCTION || status == ARES_ECANCELLED) return;
   if (k == 4) { R->cb_slow++; usleep((useconds_t)R->slow_us); return; }   // a slow application callback: other deadlines pass while the event thread is inside it
@@ -155,7 +161,7 @@ static int issue(Run &R, const std::string &kind, const std::string &name, int c
   int idx = R.nreq.fetch_add(1); if (idx >= MAXREQ) { R.nreq--; return -1; }
   ReqSlot &s = R.req[idx]; s.cbkind = cbkind; s.t_issue = now_us(); g_cbargs[idx].run = &R; g_cbargs[idx].idx = idx;
   int prev = R.last_issuer.exchange(tl_tid); if (R.pending.load() > 0 && prev != tl_tid && prev >= 0 && tl_tid >= 0) R.overlap_issues++;
-  R.pending++;
+  R.pending++; R.t_last_issue = now_us();
   if (kind == "query") ares_query_dnsrec(R.ch, name.c_str(), ARES_CLASS_IN, ARES_REC_TYPE_A, cb_rec, &g_cbargs[idx], nullptr);
   else if (kind == "search") { ares_dns_record_t *rec = nullptr; if (ares_dns_record_create(&rec, 0, ARES_FLAG_RD, ARES_OPCODE_QUERY, ARES_RCODE_NOERROR) == ARES_SUCCESS && ares_dns_record_query_add(rec, name.c_str(), ARES_REC_TYPE_A, ARES_CLASS_IN) == ARES_SUCCESS) ares_search_dnsrec(R.ch, rec, cb_rec, &g_cbargs[idx]); else on_done(&R, idx, ARES_ENOMEM); ares_dns_record_destroy(rec); }
   else if (kind == "gai") { struct ares_addrinfo_hints h; memset(&h, 0, sizeof h); h.ai_family = AF_UNSPEC; ares_getaddrinfo(R.ch, name.c_str(), nullptr, &h, cb_ai, &g_cbargs[idx]); }
@@ -170,7 +176,7 @@ static std::string g_tmp;
 
 static Outcome run_program(const Program &P) {
   Outcome out; g_seed = P.seed;
-  MockServer srv; srv.answers_left = P.answers; if (!srv.start()) { failo(out, "harness.mock-server", "cannot start the loopback server"); return out; }
+  MockServer srv; srv.answers_left = P.answers; srv.logpath = g_tmp + "/srvlog"; unlink(srv.logpath.c_str()); if (!srv.start()) { failo(out, "harness.mock-server", "cannot start the loopback server"); return out; }
   static ReqSlot *slots = new ReqSlot[MAXREQ]; for (int i = 0; i < MAXREQ; i++) { slots[i].calls = 0; slots[i].status = -1; slots[i].t_issue = 0; slots[i].t_done = 0; slots[i].issued_seq = 0; slots[i].cbkind = 0; slots[i].late = 0; }
   Run R; R.req = slots; R.slow_us = P.timeout * 1300;
   std::string rp = g_tmp + "/resolv.conf", hp = g_tmp + "/hosts"; { FILE *f = fopen(rp.c_str(), "w"); if (f) { fputs("options ndots:1\n", f); fclose(f); } f = fopen(hp.c_str(), "w"); if (f) fclose(f); }
@@ -179,12 +185,13 @@ static Outcome run_program(const Program &P) {
   o.resolvconf_path = (char *)rp.c_str(); o.hosts_path = (char *)hp.c_str(); o.timeout = P.timeout; o.tries = P.tries; o.lookups = (char *)"b"; char *doms[] = {(char *)"dom.test"}; o.domains = doms; o.ndomains = 1; o.qcache_max_ttl = 0;
   unsigned fl = ARES_FLAG_EDNS; if (P.flags.find("STAYOPEN") != std::string::npos) fl |= ARES_FLAG_STAYOPEN; if (P.flags.find("USEVC") != std::string::npos) fl |= ARES_FLAG_USEVC; if (P.flags.find("NOEDNS") != std::string::npos) fl &= ~ARES_FLAG_EDNS; if (P.flags.find("NOROTATE") == std::string::npos && P.flags.find("ROTATE") != std::string::npos) mask |= ARES_OPT_ROTATE; o.flags = (int)fl;
   ares_verif_yield = P.prop == "C11" ? yield_hook : nullptr;
+  g_rand_ctr = (uint64_t)P.seed * 0x2545F4914F6CDD1DULL; ares_verif_rand = rand_hook;
   int st = ares_init_options(&R.ch, &o, mask);
   if (st != ARES_SUCCESS) { srv.shutdown(); ares_verif_yield = nullptr; if (st == ARES_ENOTIMP) { stats().count("thr.backend_not_available"); return out; } failo(out, "harness.init-failed", ares_strerror(st)); return out; }
   R.csv = (P.dead ? std::string("127.0.0.1:1,") : std::string()) + "127.0.0.1:" + std::to_string(srv.port);
   ares_set_servers_ports_csv(R.ch, R.csv.c_str());
   // budget for one request (ms): every try on every server at the doubled timeouts, x3, + 2 s
-  size_t nserv = P.dead ? 2 : 1; int64_t sum = 0; { int64_t t = P.timeout; for (size_t i = 0; i < (size_t)P.tries * nserv; i++) { sum += t; if ((i + 1) % nserv == 0) t *= 2; } }
+  size_t nserv = P.dead ? 2 : 1; int64_t sum = 0; { int64_t t = std::max(P.timeout, 250); for (size_t i = 0; i < (size_t)P.tries * nserv; i++) { sum += t; if ((i + 1) % nserv == 0) t *= 2; } }
   int64_t budget_ms = sum * 3 * 3 /* search candidates / families */ + 2000 + 8 * (int64_t)P.timeout * 13 / 10 /* slow callbacks of other requests run on the event thread */;
 
   std::atomic<int> go{0}; std::vector<std::thread> th;
@@ -200,9 +207,12 @@ static Outcome run_program(const Program &P) {
       else if (op.op == "reinit") { ares_reinit(R.ch); R.reconfigs++; }
       else if (op.op == "active") (void)ares_queue_active_queries(R.ch);
       else if (op.op == "timeout") { struct timeval tv; (void)ares_timeout(R.ch, nullptr, &tv); }
-      else if (op.op == "sleep") usleep((useconds_t)std::min(200000, std::max(0, atoi(op.arg.c_str()))));
+      else if (op.op == "sleep") usleep((useconds_t)std::min(2000000, std::max(0, atoi(op.arg.c_str()))));
       else if (op.op == "waitempty") { uint64_t before = R.seq.load(); int nreq0 = R.nreq.load(); int ms = std::min(3000, std::max(1, atoi(op.arg.c_str())));
+        int64_t w0 = now_us(); if (ms >= 800) R.long_waits++;
         ares_status_t ws = ares_queue_wait_empty(R.ch, ms);
+        // lost wake-up: the last outstanding request completed while this thread was blocked, nothing was issued afterwards, and the wait still slept on for more than half a second
+        if (ws == ARES_ETIMEOUT) { int64_t te = R.t_empty.load(), ti = R.t_last_issue.load(), t1 = now_us(); if (R.pending.load() == 0 && te > w0 && ti < te && t1 - te >= 500000 && R.t_last_issue.load() == ti && R.pending.load() == 0) R.slept_through++; }
         if (ws == ARES_SUCCESS) { R.wait_ok++; for (int i = 0; i < nreq0 && i < MAXREQ; i++) { uint64_t is = R.req[i].issued_seq.load(); if (is != 0 && is < before && R.req[i].calls.load() == 0) R.wait_violation++; } } else R.wait_timeout++; }
     } });
   int64_t t0 = now_us(); go = 1;
@@ -214,14 +224,24 @@ static Outcome run_program(const Program &P) {
   int64_t worst = 0; int worst_i = -1; for (int i = 0; i < nreq; i++) if (R.req[i].calls.load() > 0) { int64_t d = R.req[i].t_done.load() - R.req[i].t_issue.load(); if (d > worst) { worst = d; worst_i = i; } }
   if (ws == ARES_SUCCESS && unfinished) failo(out, P.prop + ".wait-empty-success-with-requests-outstanding", std::to_string(unfinished) + " of " + std::to_string(nreq) + " requests had no callback when ares_queue_wait_empty() returned ARES_SUCCESS after all client threads had finished");
   if (ws != ARES_SUCCESS) failo(out, P.prop + ".request-never-completes", std::to_string(unfinished) + " of " + std::to_string(nreq) + " requests still without a callback " + std::to_string((now_us() - t0) / 1000) + " ms after the start (per-request budget " + std::to_string(budget_ms) + " ms, waited twice that); backend " + P.backend);
+  if (R.slept_through.load()) failo(out, "C11.wait-empty-slept-through-the-queue-becoming-empty", std::to_string(R.slept_through.load()) + " ares_queue_wait_empty() calls timed out although the last outstanding request had completed more than 500 ms earlier while they were blocked and nothing was issued since (lost wake-up)");
   if (R.wait_violation.load()) failo(out, "C11.wait-empty-success-with-earlier-request-outstanding", std::to_string(R.wait_violation.load()) + " requests issued before an ares_queue_wait_empty() call had no callback when it returned ARES_SUCCESS");
+  // C07, tight form for the simplest shape (one live server, plain queries that all end by timeout, no slow callbacks): a query that never gets an answer must fail
+  // after about sum(timeout * 2^round) - the library only ever shortens a round (jitter, learned timeouts) - so one that takes 350 ms longer waited past a deadline
+  if (out.ok && P.prop == "C07" && !P.dead && R.cb_slow.load() == 0 && P.tight) { int64_t nominal = 0; { int64_t t = std::max(P.timeout, 250) /* the library never waits less than 250 ms per try */; for (int i = 0; i < P.tries; i++) { nominal += t; t *= 2; } }
+    for (int i = 0; i < nreq; i++) if (R.req[i].status.load() == ARES_ETIMEOUT) { int64_t d = (R.req[i].t_done.load() - R.req[i].t_issue.load()) / 1000; stats().count("thr.tight_deadline_checks"); if (d > nominal + 350) { failo(out, "C07.query-outwaits-its-deadline", "request " + std::to_string(i) + " against a silent server completed after " + std::to_string(d) + " ms; its " + std::to_string(P.tries) + " tries of " + std::to_string(std::max(P.timeout, 250)) + " ms (doubling) end after at most " + std::to_string(nominal) + " ms; backend " + P.backend); break; } } }
   if (out.ok && worst > budget_ms * 1000) failo(out, P.prop + ".completion-exceeds-retry-budget", "request " + std::to_string(worst_i) + " took " + std::to_string(worst / 1000) + " ms; budget " + std::to_string(budget_ms) + " ms");
   R.destroyed = false; ares_destroy(R.ch); R.destroyed = true; R.ch = nullptr;
-  ares_verif_yield = nullptr;
+  ares_verif_yield = nullptr; ares_verif_rand = nullptr;
   srv.shutdown();
+  // C07, tight form seen from the server: the first retransmission of a query comes one base timeout after its first transmission (round 0 has no jitter);
+  // a later one means its deadline passed unnoticed (e.g. the event thread still slept on an older, later deadline)
+  if (out.ok && P.prop == "C07" && P.tight && !P.dead) { std::map<std::string, std::vector<int64_t>> rx; { FILE *f = fopen(srv.logpath.c_str(), "r"); if (f) { char nm[128]; long long t; while (fscanf(f, "%127s %lld", nm, &t) == 2) rx[nm].push_back(t); fclose(f); } }
+    int64_t base = std::max(P.timeout, 250);
+    for (auto &kv : rx) { if (kv.second.size() < 2) continue; int64_t gap = (kv.second[1] - kv.second[0]) / 1000; stats().count("thr.first_retransmission_gaps_checked"); if (gap > base + 200) { failo(out, "C07.query-outwaits-its-deadline", "query " + kv.first + ": first retransmission " + std::to_string(gap) + " ms after the first transmission, its timeout is " + std::to_string(base) + " ms; backend " + P.backend); break; } } }
   for (int i = 0; i < nreq; i++) { int c = R.req[i].calls.load(); if (c > 1) failo(out, P.prop + ".callback-twice", "request " + std::to_string(i) + " got " + std::to_string(c) + " callbacks"); if (c == 0) failo(out, P.prop + ".never-called-back", "request " + std::to_string(i) + " had no callback after ares_destroy"); }
   stats().count("thr.requests", (uint64_t)nreq); stats().count("thr.reconfigurations", (uint64_t)R.reconfigs.load()); stats().count("thr.overlapping_issues", (uint64_t)R.overlap_issues.load()); stats().count("thr.wait_empty_success", (uint64_t)R.wait_ok.load()); stats().count("thr.wait_empty_timeout", (uint64_t)R.wait_timeout.load());
-  stats().count("thr.cb_reinit", (uint64_t)R.cb_reinit.load()); stats().count("thr.cb_query", (uint64_t)R.cb_query.load()); stats().count("thr.cb_cancel", (uint64_t)R.cb_cancel.load()); stats().count("thr.cb_slow", (uint64_t)R.cb_slow.load()); stats().count("thr.backend." + P.backend);
+  stats().count("thr.cb_reinit", (uint64_t)R.cb_reinit.load()); stats().count("thr.cb_query", (uint64_t)R.cb_query.load()); stats().count("thr.cb_cancel", (uint64_t)R.cb_cancel.load()); stats().count("thr.cb_slow", (uint64_t)R.cb_slow.load()); stats().count("thr.long_waits", (uint64_t)R.long_waits.load()); stats().count("thr.backend." + P.backend);
   { int to = 0, ok = 0; for (int i = 0; i < nreq; i++) { int s2 = R.req[i].status.load(); if (s2 == ARES_ETIMEOUT) to++; if (s2 == ARES_SUCCESS) ok++; } stats().count("thr.completed_ok", (uint64_t)ok); stats().count("thr.completed_timeout", (uint64_t)to);
     if (P.prop == "C07") out.nontrivial = to > 0; else out.nontrivial = P.nthreads >= 2 && R.overlap_issues.load() > 0 && R.reconfigs.load() > 0; }
   return out;
@@ -232,6 +252,13 @@ static std::string gen_program(const std::string &prop, const unsigned char *dat
   Chooser c(data, size); std::string o = "prop " + prop + "\nseed " + std::to_string(c.u32()) + "\n";
   static const char *be[] = {"epoll", "poll", "select"}; o += std::string("backend ") + be[c.pick(3)] + "\n";
   std::string fl; if (c.chance(1, 2)) fl += "STAYOPEN,"; if (c.chance(1, 5)) fl += "USEVC,"; if (c.chance(1, 4)) fl += "ROTATE,"; if (fl.empty()) fl = "NONE";
+  if (prop == "C07" && c.chance(1, 3)) {
+    // busy-connection production: a query is in a later retry round (long deadline) when another one is written on the same socket; the new, earlier deadline must be honoured
+    int t = 250 + 50 * (int)c.pick(4); o += std::string("opt flags=") + (c.chance(1, 2) ? "STAYOPEN" : "NONE") + " tries=3 timeout=" + std::to_string(t) + "\nanswers 0\ntight 1\n";
+    o += "t 0 query a0.test\n"; unsigned n = 1 + c.pick(3);
+    for (unsigned i = 1; i <= n; i++) { o += "t 0 sleep " + std::to_string((long)t * (1100 + c.pick(2200))) + "\nt 0 query a" + std::to_string(i) + ".test\n"; }
+    return o;
+  }
   if (prop == "C07") {
     o += "opt flags=" + fl + " tries=" + std::to_string(1 + c.pick(3)) + " timeout=" + std::to_string(30 + 10 * c.pick(8)) + "\n";
     o += "answers " + std::to_string(c.pick(4)) + "\n";   // the server goes silent after k answers
@@ -251,6 +278,11 @@ static std::string gen_program(const std::string &prop, const unsigned char *dat
     else if (k == 13) l += "cancel"; else if (k < 16) l += "reinit"; else if (k == 16) l += "setservers"; else if (k < 19) l += "waitempty " + std::to_string(1 + c.pick(300)); else if (k == 19) l += "active"; else if (k == 20) l += "timeout"; else l += "sleep " + std::to_string(c.pick(3000));
     if (k < 13 && c.chance(1, 5)) { static const char *cb[] = {"reinit", "query", "cancel"}; l += std::string(" cb=") + cb[c.pick(3)]; }
     o += l + "\n"; }
+  if (c.chance(1, 3)) {
+    // drain production: several threads block in ares_queue_wait_empty() while the last requests complete; every one of them must be woken
+    unsigned nw = 2 + c.pick(nt - 1 > 3 ? 3 : nt - 1); o += "t 0 query d" + std::to_string(total) + ".test\n";
+    for (unsigned w = 0; w < nw && w < nt; w++) o += "t " + std::to_string(w) + " waitempty " + std::to_string(1500 + c.pick(1000)) + "\n";
+  }
   return o;
 }
 
@@ -263,7 +295,7 @@ bool run_case(const std::string &text, std::string &sig, bool &nontrivial) {
   signal(SIGALRM, [](int) { static const char m[] = "\nERROR: VERIF-HANG: case exceeded its wall-clock budget (threads blocked)\n"; if (write(2, m, sizeof m - 1) < 0) {} _exit(95); });
   alarm(90);
   struct AlarmOff { ~AlarmOff() { alarm(0); } } alarm_off;
-  for (int attempt = 0; attempt < 3; attempt++) { o = run_program(P); if (o.ok) break; bool timing = o.sig.find("never-completes") != std::string::npos || o.sig.find("exceeds-retry-budget") != std::string::npos; if (!timing || getenv("VERIF_THR_STRICT")) break; stats().count("thr.timing_oracle_retries"); msg("NOTE timing oracle missed on attempt %d: %s\n", attempt + 1, o.detail.substr(0, 300).c_str()); }
+  for (int attempt = 0; attempt < 3; attempt++) { o = run_program(P); if (o.ok) break; bool timing = o.sig.find("never-completes") != std::string::npos || o.sig.find("exceeds-retry-budget") != std::string::npos || o.sig.find("slept-through") != std::string::npos || o.sig.find("outwaits-its-deadline") != std::string::npos; if (!timing || getenv("VERIF_THR_STRICT")) break; stats().count("thr.timing_oracle_retries"); msg("NOTE timing oracle missed on attempt %d: %s\n", attempt + 1, o.detail.substr(0, 300).c_str()); }
   nontrivial = o.nontrivial;
   if (!o.ok) { sig = o.sig; if (!o.detail.empty()) msg("DETAIL %s\n", o.detail.substr(0, 1500).c_str()); return false; }
   return true;
